@@ -108,6 +108,35 @@ func (yieldLogger) Error(args ...interface{})                 { runtime.Gosched(
 func (yieldLogger) Errorf(format string, args ...interface{}) { runtime.Gosched() }
 func (yieldLogger) Errorln(args ...interface{})               { runtime.Gosched() }
 
+// nestLogger is a context logger that counts its calls and, at the n-th one, runs fire()
+// synchronously (a COMPLETE other verification on the same verifier) before returning
+type nestLogger struct {
+	count int
+	n     int
+	fire  func()
+}
+
+func (l *nestLogger) tick() {
+	l.count++
+	if l.count == l.n && l.fire != nil {
+		f := l.fire
+		l.fire = nil
+		f()
+	}
+}
+func (l *nestLogger) Debug(args ...interface{})                 { l.tick() }
+func (l *nestLogger) Debugf(format string, args ...interface{}) { l.tick() }
+func (l *nestLogger) Debugln(args ...interface{})               { l.tick() }
+func (l *nestLogger) Info(args ...interface{})                  { l.tick() }
+func (l *nestLogger) Infof(format string, args ...interface{})  { l.tick() }
+func (l *nestLogger) Infoln(args ...interface{})                { l.tick() }
+func (l *nestLogger) Warn(args ...interface{})                  { l.tick() }
+func (l *nestLogger) Warnf(format string, args ...interface{})  { l.tick() }
+func (l *nestLogger) Warnln(args ...interface{})                { l.tick() }
+func (l *nestLogger) Error(args ...interface{})                 { l.tick() }
+func (l *nestLogger) Errorf(format string, args ...interface{}) { l.tick() }
+func (l *nestLogger) Errorln(args ...interface{})               { l.tick() }
+
 // obsOpt: how a concurrent call is observed (own context, own call log, own sink)
 type obsOpt struct {
 	ctx   context.Context
@@ -2083,6 +2112,99 @@ func runC03(a *Args) error {
 							Stmts:  []stmtDesc{{Name: "sel", Scopes: []string{TestScope}, Stores: list, Level: lv, TSOpt: string(trustpolicy.OptionAfterCertExpiry)}},
 							Stores: layoutStores, Labels: []string{"fs:" + kind, fmt.Sprintf("fs-list-%d", li)}}
 						runCase(c)
+					}
+				}
+			}
+		}
+	}
+
+	// ---------- family 8d: nested verifications on ONE verifier, deterministically ----------
+	// Verification A runs with a context logger that, at its n-th log call (every n = 1..K, K = the
+	// number of log calls of that Verify), runs a COMPLETE verification B on the SAME verifier - B's
+	// artifact is scoped to ANOTHER statement with other trust stores - and then lets A continue. A was
+	// verified once before on that verifier (whatever the verifier remembers is about A). A and B are
+	// each judged on their OWN input; each has its own call log (carried by its context), so the calls
+	// recorded during A minus those of B must be exactly the model's calls for A's statement. Both roles,
+	// both schemes, and B = A's reference as the control. No goroutines: replays exactly.
+	{
+		type nestOut struct {
+			in, obs string
+			nontriv bool
+			frame   []string
+		}
+		for _, sa := range []bool{false, true} {
+			req, oth := "ca", "signingAuthority"
+			if sa {
+				req, oth = oth, req
+			}
+			e := envs["n3"]
+			root := e.ids[2]
+			repoGood, repoBad := "reg.example/nest-good", "reg.example/nest-bad"
+			stmts := []stmtDesc{
+				{Name: "good", Scopes: []string{repoGood}, Stores: []string{req + ":ng", oth + ":nx"}, Level: "strict"},
+				{Name: "bad", Scopes: []string{repoBad}, Stores: []string{req + ":nu", oth + ":ng", req + ":nv"}, Level: "audit"},
+				{Name: "wild", Scopes: []string{"*"}, Stores: []string{req + ":ng"}, Level: "strict"},
+			}
+			stores := []storeDesc{
+				{Type: req, Name: "ng", Certs: []int64{e.twins[0], root}},
+				{Type: oth, Name: "ng", Certs: []int64{root}},
+				{Type: oth, Name: "nx", Certs: []int64{idUnrelRoot}},
+				{Type: req, Name: "nu", Certs: []int64{idUnrelRoot, e.twins[0]}},
+				{Type: req, Name: "nv", Certs: []int64{idUnrelLeaf}},
+			}
+			for _, roles := range [][2]string{{repoGood, repoBad}, {repoBad, repoGood}, {repoGood, repoGood}, {repoBad, repoBad}} {
+				mk := func(repo, label string, n, K int) *c03Case {
+					return &c03Case{Family: "nested", Chain: "n3", Format: formats[(n+len(repo))%2], SA: sa, TS: 0, Repo: repo, Stmts: stmts, Stores: stores,
+						Labels: []string{label, fmt.Sprintf("nested:A=%s,B=%s", strings.TrimPrefix(roles[0], "reg.example/nest-"), strings.TrimPrefix(roles[1], "reg.example/nest-")), fmt.Sprintf("nested-at-log-call-%d-of-%d", n, K)}}
+				}
+				runNested := func(ss *session, myA, myB int64, cA, cB *c03Case, n int) (oa, ob nestOut, count int) {
+					callsA, callsB := []StoreKey{}, []StoreKey{}
+					lg := &nestLogger{n: n}
+					if cB != nil {
+						lg.fire = func() {
+							ctxB := context.WithValue(context.Background(), callLogKey{}, &callsB)
+							observe(myB, cB, ss, true, &obsOpt{ctx: ctxB, calls: &callsB, sink: func(i, o string, nt bool, fr []string) { ob = nestOut{i, o, nt, fr} }})
+						}
+					}
+					ctxA := context.WithValue(nlog.WithLogger(context.Background(), lg), callLogKey{}, &callsA)
+					observe(myA, cA, ss, true, &obsOpt{ctx: ctxA, calls: &callsA, sink: func(i, o string, nt bool, fr []string) { oa = nestOut{i, o, nt, fr} }})
+					return oa, ob, lg.count
+				}
+				// K: the log calls of A's second Verify on a verifier that has verified A before
+				ss0 := setup(id, mk(roles[0], "nested-count", 0, 0))
+				ss0.shared = true
+				runNested(ss0, id, id, mk(roles[0], "nested-prime", 0, 0), nil, 0)
+				_, _, K := runNested(ss0, id, id, mk(roles[0], "nested-count", 0, 0), nil, 0)
+				w.Count("nested_log_calls_of_one_verify", strconv.Itoa(K))
+				for n := 1; n <= K; n++ {
+					myP, myA, myB := id, id+1, id+2
+					id += 3
+					if !w.Want(myP) && !w.Want(myA) && !w.Want(myB) {
+						continue
+					}
+					ss := setup(myP, mk(roles[0], "nested-prime", n, K))
+					ss.shared = true
+					cP, cA, cB := mk(roles[0], "nested-prime", n, K), mk(roles[0], "nested-outer", n, K), mk(roles[1], "nested-inner", n, K)
+					oP, _, _ := runNested(ss, myP, myP, cP, nil, 0)
+					oA, oB, _ := runNested(ss, myA, myB, cA, cB, n)
+					for _, x := range []struct {
+						my int64
+						o  nestOut
+						c  *c03Case
+					}{{myP, oP, cP}, {myA, oA, cA}, {myB, oB, cB}} {
+						if !w.Want(x.my) {
+							continue
+						}
+						if x.o.in == "" {
+							w.ImplViolation(x.my, "nested verification on one verifier: the inner verification did not run or produced no observation", x.c, "nested:no-observation")
+							continue
+						}
+						w.Add(x.my, CApp("mk_xcase", CN(x.my), x.o.in, x.o.obs), x.c, x.o.in+x.o.obs, x.o.nontriv)
+						w.Count("family", "nested")
+						w.Count("obs_auth", strings.SplitN(x.c.Auth, ":", 2)[0])
+						for _, what := range x.o.frame {
+							w.ImplViolation(x.my, "library mutated caller-owned "+what, x.c, "frame:"+strings.ReplaceAll(what, " ", "-"))
+						}
 					}
 				}
 			}
